@@ -665,10 +665,35 @@ func (f *Field) bsiGroup(name string) *bsiGroup {
 	defer f.mu.RUnlock()
 	for _, bsig := range f.bsiGroups {
 		if bsig.Name == name {
-			return bsig
+			// Return a snapshot taken under the lock: the bit depth of the
+			// stored group grows concurrently (see raiseBSIBitDepth).
+			other := *bsig
+			return &other
 		}
 	}
 	return nil
+}
+
+// raiseBSIBitDepth raises the bit depth of the named bsiGroup to at least
+// depth, persists the change, and returns the depth now in effect. It never
+// lowers the depth, so concurrent writers cannot undo each other's increase.
+func (f *Field) raiseBSIBitDepth(name string, depth uint) (uint, error) {
+	f.mu.Lock()
+	defer f.mu.Unlock()
+	for _, bsig := range f.bsiGroups {
+		if bsig.Name != name {
+			continue
+		}
+		if depth > bsig.BitDepth {
+			bsig.BitDepth = depth
+			f.options.BitDepth = depth
+			if err := f.saveMeta(); err != nil {
+				return bsig.BitDepth, err
+			}
+		}
+		return bsig.BitDepth, nil
+	}
+	return 0, ErrBSIGroupNotFound
 }
 
 // hasBSIGroup returns true if a bsiGroup exists on the field.
@@ -1027,22 +1052,15 @@ func (f *Field) SetValue(columnID uint64, value int64) (changed bool, err error)
 
 	// Increase bit depth value if the unsigned value is greater.
 	if requiredBitDepth > bsig.BitDepth {
-		if err := func() error {
-			f.mu.Lock()
-			defer f.mu.Unlock()
-
-			uvalue := uint64(baseValue)
-			if value < 0 {
-				uvalue = uint64(-baseValue)
-			}
-			bitDepth := bitDepth(uvalue)
-
-			bsig.BitDepth = bitDepth
-			f.options.BitDepth = bitDepth
-			return f.saveMeta()
-		}(); err != nil {
+		uvalue := uint64(baseValue)
+		if value < 0 {
+			uvalue = uint64(-baseValue)
+		}
+		depth, err := f.raiseBSIBitDepth(f.name, bitDepth(uvalue))
+		if err != nil {
 			return false, errors.Wrap(err, "increasing bsi max")
 		}
+		bsig.BitDepth = depth
 	}
 
 	// Fetch target view.
@@ -1247,15 +1265,11 @@ func (f *Field) importValue(columnIDs []uint64, values []int64, options *ImportO
 
 	// Increase bit depth if required.
 	if requiredDepth > bsig.BitDepth {
-		if err := func() error {
-			f.mu.Lock()
-			defer f.mu.Unlock()
-			bsig.BitDepth = requiredDepth
-			f.options.BitDepth = requiredDepth
-			return f.saveMeta()
-		}(); err != nil {
+		depth, err := f.raiseBSIBitDepth(f.name, requiredDepth)
+		if err != nil {
 			return errors.Wrap(err, "increasing bsi bit depth")
 		}
+		bsig.BitDepth = depth
 	}
 
 	// Split import data by fragment.
